@@ -62,7 +62,7 @@ CLAIMED = {
   text='Lean theorems over Model/Attempt.lean (Queue._attempt / _handle_partial_relay / _retry_later / _perm_fail / _split_by_reply): for every '
        'list of per-recipient failures the bounces have pairwise different replies, every reply has its bounce, a bounce names only and at least one '
        'recipient that failed with its reply, and all failed recipients are named exactly once; for every attempt outcome the bounces name exactly '
-       'the finally-failed recipients; a null-sender message (hence every bounce) never produces a bounce; a factory returning None produces none; over the composed queue machine (Model/QueueM.lean, see C01) under every interleaving: null_sender_no_bounce_interleaved, failed_are_bounced_interleaved. '
+       'the finally-failed recipients; a null-sender message (hence every bounce) never produces a bounce; a factory returning None produces none; over the composed queue machine (Model/QueueM.lean, see C01) under every interleaving: null_sender_no_bounce_interleaved, failed_are_bounced_interleaved, each_failed_recipient_bounced_once (over all bounces of a message a recipient that failed for good is named exactly once, anybody else never). '
        'The bytes of a bounce are inside the model too (Model/Bounce.lean: BytesFormat template scanning and substitution, Bounce._get_delivery_info / '
        '_get_substitution_table / _build_message, then Envelope.parse / flatten of C20): bounce_embeds_original (any templates: when the formatted header template begins with a '
        'well-formed header block, the bounce flattens to that block and a body = rest of the template ++ ORIGINAL HEADER DATA ++ ORIGINAL MESSAGE DATA (unless headers-only) ++ footer, byte for byte), '
